@@ -28,6 +28,13 @@ func (group *Group) AddRtmpPushSession(url string, session *rtmp.PushSession) {
 		return
 	}
 	if group.url2PushProxy != nil {
+		// 转推建立期间输入session已经换了一个（旧的结束，新的发布上来）：这次转推携带的是旧输入的url参数，应该随旧输入结束，
+		// 关闭后由定时器按新输入重新发起
+		if v := group.url2PushProxy[url]; v != nil && v.startedFor != "" && v.startedFor != group.inSessionUniqueKey() {
+			Log.Infof("[%s] [%s] relay push established but input session changed, dispose it.", group.UniqueKey, session.UniqueKey())
+			_ = session.Dispose()
+			return
+		}
 		group.url2PushProxy[url].pushSession = session
 	}
 }
@@ -47,6 +54,8 @@ func (group *Group) DelRtmpPushSession(url string, session *rtmp.PushSession) {
 type pushProxy struct {
 	isPushing   bool
 	pushSession *rtmp.PushSession
+	// startedFor 这次转推是为哪个输入session发起的（转推的url参数取自它），用于转推建立成功时判断输入是否已经换人
+	startedFor string
 }
 
 func (group *Group) initRelayPushByConfig() {
@@ -95,6 +104,7 @@ func (group *Group) startPushIfNeeded() {
 			continue
 		}
 		v.isPushing = true
+		v.startedFor = group.inSessionUniqueKey()
 
 		urlWithParam := url
 		if urlParam != "" {
